@@ -83,7 +83,9 @@ AcceptOp ==
   /\ kind # "none" /\ KnownOp
   /\ Ev.r = Ideal.ret
   /\ IF kind = "bounded" THEN ObsB(Ev.o, Ideal.q, cap) ELSE ObsF(Ev.o, Ideal.q)
-  /\ (Ev.r.k # "panic" => Ev.h = << 0, 0, 0 >>)  \* C07: no allocation, reallocation or free in any operation
+
+\* C07: no operation of either buffer allocates, reallocates or frees (panicking calls exempt)
+HeapOK == Ev.r.k = "panic" \/ Ev.h = << 0, 0, 0 >>
 
 Consume == l <= Len(Rec) /\ l' = l + 1
 
@@ -96,15 +98,16 @@ TReset ==
                /\ q' = x.q /\ cap' = Len(c.data)
                /\ first' = IF x.ok /\ Ev.comp = "fixed" THEN Ev.o.raw.first ELSE 0
                /\ skip' = FALSE
-       ELSE /\ PrintT(<< "REJECT", l, Ev >>)
+       ELSE /\ PrintT(<< "REJECT", l, Ev.ev >>)
             /\ skip' = TRUE /\ kind' = "none" /\ UNCHANGED << q, cap, first >>
 TOp ==
   /\ Consume /\ Ev.ev # "reset" /\ ~skip
   /\ IF AcceptOp
        THEN /\ q' = Ideal.q
             /\ first' = IF kind = "fixed" THEN Ev.o.raw.first ELSE 0
+            /\ (IF HeapOK THEN TRUE ELSE PrintT(<< "HEAP", l, Ev.ev >>))
             /\ UNCHANGED << kind, cap, skip >>
-       ELSE /\ PrintT(<< "REJECT", l, Ev >>)
+       ELSE /\ PrintT(<< "REJECT", l, Ev.ev >>)
             /\ skip' = TRUE /\ UNCHANGED << kind, q, cap, first >>
 TSkip == Consume /\ Ev.ev # "reset" /\ skip /\ UNCHANGED << kind, q, cap, first, skip >>
 
